@@ -73,6 +73,82 @@ def run(tier, seed):
             parts, w, kind, style, mx = exps[c.case_index]
             vs.append(Violation(PROP, '%s:%s' % (PROP, c.key_tail()), '%s/%s writer died (largest chunk %d bytes): %s in %s' % (w, kind, mx, c.cls, c.func),
                                 {'case': {k: v for k, v in cases[c.case_index].items() if k != 'data'}, 'largest_chunk': mx, 'report': c.excerpt}))
+        # ---- a failing destination (/dev/full), then rotation to a healthy one: what reaches the new output must be exactly
+        #      what was written after the rotation (nothing of the failed write may leak into the next stream)
+        fcases, fexp = [], []
+        combos = [(w, big, after) for w in ('gzip', 'xz', 'none') for big in (300000, 100000, 70000, 3000, 1000000) for after in ([], [0], [5], [2048, 100], [70000])]
+        if tier != 'quick':
+            combos = combos * 3
+        for i, (w, big, after) in enumerate(combos):
+            r = gen.seeded(seed, 'C14f', i)
+            sizes = [big] + after
+            blob = make_data(r, sum(sizes), r.choice(['random', 'random', 'text']))
+            dp = os.path.join(wd, 'fin_%05d.bin' % i)
+            with open(dp, 'wb') as f:
+                f.write(blob)
+            steps = [{'n': big}, {'rot': True}] + [{'n': x} for x in after]
+            if r.random() < 0.4:
+                steps += [{'rot': True}]
+            fcases.append({'id': 'f%05d' % i, 'w': w, 'kind': 'fd', 'data': dp, 'out': os.path.join(wd, 'fout_%05d' % i), 'steps': steps,
+                           'dev_full_first': True, 'continue_after_exception': True})
+            fexp.append((blob[big:], w, big))
+        fres, fcr, wd3 = runner.run_cases('asan', 'writer', fcases, 'c14f', timeout=900)
+        runner.cleanup(wd3)
+        for c in fcr:
+            vs.append(Violation(PROP, '%s:after-failed-write:%s' % (PROP, c.key_tail()), 'writer died after a failed write and rotation: %s in %s' % (c.cls, c.func), {'case': {k: v for k, v in fcases[c.case_index].items() if k != 'data'}, 'report': c.excerpt}))
+        fault_runs = 0
+        for i, (case, (want, w, big)) in enumerate(zip(fcases, fexp)):
+            r = fres.get(i)
+            if r is None:
+                continue
+            small = {k: v for k, v in case.items() if k != 'data'}
+            if not any(isinstance(x, dict) and 'exc' in x for x in r['log'][:1]):
+                if w != 'none' and big < 100000:
+                    continue           # small compressible chunk: nothing had to be written yet, no failure - fine
+                if not any(isinstance(x, dict) for x in r['log']):
+                    vs.append(Violation(PROP, '%s:write-to-full-device-not-reported:%s' % (PROP, w), 'writing %d bytes to /dev/full through the %s writer raised nothing' % (big, w), {'case': small}))
+                    continue
+            fault_runs += 1
+            got = b''
+            bad = None
+            for path in r['outs'][1:]:
+                try:
+                    got += pipeline.decompress(w, open(path, 'rb').read())
+                except (OSError, pipeline.StreamError) as x:
+                    bad = str(x)
+            if bad:
+                vs.append(Violation(PROP, '%s:after-failed-write:bad-stream:%s' % (PROP, w), 'output opened after a failed write is not a complete stream: %s' % bad, {'case': small}))
+            elif got != want:
+                vs.append(Violation(PROP, '%s:after-failed-write:content:%s' % (PROP, w), 'after a failed %d-byte write and a rotation, the new output decompresses to %d bytes, the writes after the rotation amount to %d' % (big, len(got), len(want)), {'case': small}))
+        # ---- the same (small) sequences once more with 8 independent writer instances working concurrently in one process
+        small_idx = [i for i, e in enumerate(exps) if e[4] < MiB][:160 if tier == 'quick' else 1200]
+        ccases = []
+        for i in small_idx:
+            c = dict(cases[i])
+            c['id'] = 'c' + c['id'][1:]
+            c['out'] = c['out'] + '_conc'
+            ccases.append(c)
+        cres, ccr, wd4 = runner.run_cases('asan', 'writer', ccases, 'c14c', timeout=900, shards=4, env={'VDRV_THREADS': '8'})
+        runner.cleanup(wd4)
+        for c in ccr:
+            vs.append(Violation(PROP, '%s:concurrent-writers:%s' % (PROP, c.key_tail()), 'independent writers used from 8 threads: %s in %s' % (c.cls, c.func), {'report': c.excerpt}))
+        conc_checked = 0
+        for j, i in enumerate(small_idx):
+            r = cres.get(j)
+            if r is None or any(isinstance(x, dict) for x in r['log']):
+                if r is not None:
+                    vs.append(Violation(PROP, '%s:concurrent-writers:exception' % PROP, 'a writer threw while 8 independent writers were working concurrently: %s' % [x for x in r['log'] if isinstance(x, dict)][:1], {'case': {k: v for k, v in ccases[j].items() if k != 'data'}}))
+                continue
+            parts, w = exps[i][0], exps[i][1]
+            for path, want in zip(r['outs'], parts):
+                conc_checked += 1
+                try:
+                    data = pipeline.decompress(w, open(path, 'rb').read())
+                except (OSError, pipeline.StreamError) as x:
+                    vs.append(Violation(PROP, '%s:concurrent-writers:bad-stream:%s' % (PROP, w), 'output written while 8 independent writers worked concurrently is not a complete stream: %s' % x, {'case': {k: v for k, v in ccases[j].items() if k != 'data'}}))
+                    continue
+                if data != want:
+                    vs.append(Violation(PROP, '%s:concurrent-writers:content:%s' % (PROP, w), 'output written while 8 independent writers worked concurrently decompresses to other bytes than were written', {'case': {k: v for k, v in ccases[j].items() if k != 'data'}}))
         outs_checked = 0
         total = 0
         biggest = 0
@@ -117,7 +193,7 @@ def run(tier, seed):
                     first = next((k for k in range(min(len(data), len(want))) if data[k] != want[k]), min(len(data), len(want)))
                     vs.append(Violation(PROP, '%s:content:%s:%s' % (PROP, w, 'big-chunk' if mx >= MiB else 'small-chunks'),
                                         '%s/%s output decompresses to %d bytes, the writes amount to %d; first difference at %d (largest chunk %d)' % (w, kind, len(data), len(want), first, mx), {'case': small}))
-        obs = dict(sequences=len(cases), outputs_decompressed_and_compared=outs_checked, plain_bytes=total, largest_single_write=biggest, empty_outputs=empties,
+        obs = dict(sequences=len(cases), sequences_with_failing_first_destination=fault_runs, outputs_checked_from_concurrent_writers=conc_checked, outputs_decompressed_and_compared=outs_checked, plain_bytes=total, largest_single_write=biggest, empty_outputs=empties,
                    writers={w: sum(1 for e in exps if e[1] == w) for w in ('gzip', 'xz', 'none')})
         cov = dict(evaluations=len(cases), distinct_nontrivial=len(cases),
                    rule='chunk sequences (compressible, incompressible, empty; chunk sizes 0 B .. 32 MiB; 0-6 rotations) through Gzip/Xz/CborOutputWriter, named and descriptor outputs; '
